@@ -11,7 +11,7 @@ ASSUMPTIONS = [
 
 def gen(tier, seed):
     rnd = random.Random(seed)
-    n = 1500 if tier == "quick" else 60000
+    n = 1500 if tier == "quick" else 200000
     specs, pairs = [], []
     for i in range(n):
         p = dbggen.PROGRAMS[i % len(dbggen.PROGRAMS)]
